@@ -525,8 +525,22 @@ Reg const r_ranges{
 template <typename Count>
 void repeat_check(int n)
 {
+  // a loop that does not stop where documented is cut off by the callback (an exception), so that it
+  // is reported as a wrong number of calls instead of running for minutes
+  struct too_many_calls
+  {
+  };
   int calls = 0;
-  fcppt::algorithm::repeat(static_cast<Count>(n), [&calls] { ++calls; });
+  try
+  {
+    fcppt::algorithm::repeat(static_cast<Count>(n), [&calls] {
+      if (calls >= 100000) throw too_many_calls{};
+      ++calls;
+    });
+  }
+  catch (too_many_calls const &)
+  {
+  }
   chk(calls == (n < 0 ? 0 : n), n <= 0 ? "algorithm::repeat|calls|count<=0" : "algorithm::repeat|calls|count>0", [&] { return "repeat(" + std::to_string(n) + ") called the function " + std::to_string(calls) + " times"; });
 }
 void repeat_case(i64 n_)
